@@ -45,7 +45,9 @@ LEVEL_NOTE = "trusts json.loads and ast.literal_eval; depth <= 5, containers <= 
 TECHNIQUE = "runtime monitoring: print/parse round-trip oracle steered to layout thresholds"
 
 # (U+2028 / U+2029 separate lines for str.splitlines, but are ordinary characters of a JSON or Python string)
-CHARS = "abc xyzé,:[]{}中 '\U0001F600\U0001D4B3\u2028\u2029"
+# (... and characters that print nothing: a no-break space, a soft hyphen, a tag character of a flag emoji, a glyph of an
+# icon font in the private-use planes)
+CHARS = "abc xyzé,:[]{}中 '\U0001F600\U0001D4B3\u2028\u2029\xa0\xad\U000e0067\U000f0001\ue000"
 
 
 DATA_LIKE_STRINGS = ["[]", "{}", "[1, 2]", "[[], {}]", " [null]", "[true, false]", "0", "null", "true", "{ }",
@@ -158,7 +160,9 @@ def gen(rng, d=0, jsonmode=True):
     if rng.random() < 0.12:
         # keys spelled with combining marks and with the ready-made letters (different strings, whatever they look like)
         keys = keys + rng.sample(["caf\u00e9", "cafe\u0301", "e\u0301x", "f", "\u212b", "\u00c5", "A\u030a", "\u2126",
-                                  "\u03a9", "e", "ez"], rng.randint(2, 5))
+                                  "\u03a9", "e", "ez",
+                                  # (characters beyond the first 65536 next to the last ones below: code point order)
+                                  "\U0001f600", "\uff21", "\ufffd", "\U00020000x", "\ue000", "\U000e0067"], rng.randint(2, 6))
     if rng.random() < 0.06:
         keys = keys + [Colour.DARK, Loud("key")]
     rng.shuffle(keys)
